@@ -189,7 +189,7 @@ theorem ha_continue (div : Nat → Rat) (hd : (∀ k, 0 < div k) ∧ StrictMono 
     obtain ⟨c', _, hc'lt⟩ := hex
     have hgain : 0 < haSeats cp c := by
       have := hle c
-      show f c < natLookup prev c 0 + haSeats cp c at hgt'
+      change f c < natLookup prev c 0 + haSeats cp c at hgt'
       change natLookup prev c 0 ≤ f c at this
       omega
     have hck : c ∈ keys votes := C01.ha_only_voted cp hokp c hgain
@@ -202,12 +202,12 @@ theorem ha_continue (div : Nat → Rat) (hd : (∀ k, 0 < div k) ∧ StrictMono 
       have hel : Elig0 cp c' := ⟨hc'k, by
         rw [hprevOf, hcapp]
         have := hfN c'
-        show natLookup prev c' 0 + haSeats cp c' < f c' at hc'lt
+        change natLookup prev c' 0 + haSeats cp c' < f c' at hc'lt
         omega⟩
       have hroom : cp.prevOf c' + haSeats cp c' < cp.capOf c' := by
         rw [hprevOf, hcapp]
         have := hfN c'
-        show natLookup prev c' 0 + haSeats cp c' < f c' at hc'lt
+        change natLookup prev c' 0 + haSeats cp c' < f c' at hc'lt
         omega
       have := C01.ha_optimal cp hokp c' hel hroom c (a c - 1)
         (by rw [hprevOf]; have := hle c; show natLookup prev c 0 ≤ natLookup prev c 0 + haSeats cp c - 1; omega)
@@ -231,8 +231,7 @@ theorem ha_continue (div : Nat → Rat) (hd : (∀ k, 0 < div k) ∧ StrictMono 
       exact this
     have h3 : cp.quot c (a c - 1) ≤ cp.quot c (f c) := quot_anti_le hokp c (by omega)
     have h4 : c0.quot c' (f c' - 1) ≤ c0.quot c' (a c') := quot_anti_le hok0 c' (by omega)
-    rw [hquot] at h1 h3
-    rw [hquot] at h1
+    simp only [hquot] at h1 h3
     linarith
   -- no tie in the continued run
   have htp : (haRun cp).tie = none := by
@@ -266,11 +265,11 @@ theorem ha_continue (div : Nat → Rat) (hd : (∀ k, 0 < div k) ∧ StrictMono 
         have hfc' := hfN c'
         have hel' : Elig0 cp c' := ⟨hc'k, by
           rw [hprevOf, hcapp]
-          show natLookup prev c' 0 + haSeats cp c' < f c' at hc'lt
+          change natLookup prev c' 0 + haSeats cp c' < f c' at hc'lt
           omega⟩
         have hroom' : C01.finalTot cp c' < cp.capOf c' := by
           rw [C01.finalTot_eq cp hokp, hprevOf, hcapp]
-          show natLookup prev c' 0 + haSeats cp c' < f c' at hc'lt
+          change natLookup prev c' 0 + haSeats cp c' < f c' at hc'lt
           omega
         have hle' := hq c' hel' hroom'
         rw [C01.finalTot_eq cp hokp, hprevOf] at hle' hqt
